@@ -294,6 +294,17 @@ func genUniverse(root string, k int, rng *rand.Rand) (*c10Universe, error) {
 	return newC10Universe(root, fmt.Sprintf("gen%d", k), old, new, false)
 }
 
+// a FIRST PUSH: the old container has no file at all - every file index is out of range, "number of files - 1" is -1
+func firstPushUniverse(root string, rng *rand.Rand) (*c10Universe, error) {
+	old, new := newTree(), newTree()
+	sizes := []int{0, 5, 65536, 98304, 140000}
+	for i := 0; i < 1+rng.Intn(3); i++ {
+		new.Files[fmt.Sprintf("first%d", i)] = randBytes(rng, sizes[rng.Intn(len(sizes))])
+	}
+	new.Files["first-nonempty"] = randBytes(rng, 70000)
+	return newC10Universe(root, "firstpush", old, new, false)
+}
+
 // ---------------------------------------------------------------- streams
 
 type c10Stream struct {
@@ -880,6 +891,11 @@ func mutateOnce(u *c10Universe, cons string, msgs []wmsg, rng *rand.Rand) ([]wms
 		return out, fmt.Sprintf("retype %d as %d", k+1, j+1)
 	}
 	nt, ns := int64(len(u.TSizes)), int64(len(u.SSizes))
+	if rng.Intn(8) == 0 {
+		// the message changes KIND and keeps its other fields (DATA <-> BLOCK_RANGE, rsync <-> bsdiff header)
+		out[k].V1 = []int64{0, 1}[rng.Intn(2)]
+		return out, fmt.Sprintf("msg %d v1=%d (kind)", k+1, out[k].V1)
+	}
 	vals := append([]int64{nt - 1, nt, nt + 1, ns - 1, ns, ns + 1}, c10Extremes...)
 	for _, sz := range u.TSizes {
 		nb := (sz + 65535) / 65536
@@ -1226,6 +1242,13 @@ func cmdC10(args []string) error {
 			}
 			unis = append(unis, u)
 		}
+	}
+	if *mode != "replay" {
+		u, err := firstPushUniverse(tmp, rand.New(rand.NewSource(envSeed()*617+*salt*11)))
+		if err != nil {
+			return err
+		}
+		unis = append(unis, u)
 	}
 	switch *mode {
 	case "replay":
